@@ -391,9 +391,12 @@ where
         A: GLWEInfos,
         B: BDDKeyInfos,
     {
-        self.circuit_bootstrapping_execute_tmp_bytes(block_size, extension_factor, res_infos, &bdd_infos.cbt_infos())
+        // Rounded up to the scratch alignment: the multi-thread variant hands out one window of this
+        // size per thread and every window start is re-aligned to 64 bytes.
+        (self.circuit_bootstrapping_execute_tmp_bytes(block_size, extension_factor, res_infos, &bdd_infos.cbt_infos())
             + GGSW::bytes_of_from_infos(res_infos)
-            + LWE::bytes_of_from_infos(bits_infos)
+            + LWE::bytes_of_from_infos(bits_infos))
+        .next_multiple_of(64)
     }
 
     fn fhe_uint_prepare_custom_multi_thread<DM, DB, DK, K, T: UnsignedInteger>(
